@@ -33,6 +33,8 @@ def consults(node, ctxname):
 
 def run(ctx, rep):
     ix, T = ctx.ix, ctx.typer
+    from .common import check_scope_discipline
+    check_scope_discipline(ctx, rep, "C07.5", "C07.6", "C07.7")
     from .common import check_fast_paths
     _fp_mods = ["jaqalpaq.core.circuitbuilder"]
     check_fast_paths(ctx, rep, "C07.4", [f for f in ix.functions.values() if f.module in _fp_mods and (f.cls is None or T.is_visitor(f.cls))], None)
@@ -284,3 +286,29 @@ def run(ctx, rep):
                     rep.ok("C07.3", cons, f"the original is returned under a test of `{flag.id}`", loc)
                 else:
                     rep.violation("C07.3", cons, "the original node is returned without testing whether anything below it changed: re-linked gates are lost (or a changed flag is reported for an unchanged node)", loc)
+
+    # ------------------------------------------------------------ C07.8
+    rep.rule("C07.8", "memo keys built from qubit references separate scopes: while NamedQubit.__eq__ compares the source by *name*, NamedQubit.__hash__ must hash the source *object* (a register q and a macro parameter q are equal by name; only the hash keeps their memo entries apart)", floor=1)
+    NQ = "jaqalpaq.core.register.NamedQubit"
+    nq = ix.cls(NQ)
+    eqm, hm = nq.methods.get("__eq__"), nq.methods.get("__hash__")
+    cons = cls_construct(ix, NQ, "__hash__:source-object")
+    memo_uses_objects = any(f.cls and f.cls.endswith("GateMemoizer") for f in ix.functions.values())
+    if eqm is None or hm is None or not memo_uses_objects:
+        rep.exempt("C07.8", cons, "no name-based equality / no memo keyed on built objects")
+    else:
+        def src_by_name(fn):
+            return any(isinstance(m, ast.Attribute) and m.attr in ("name", "_name") and isinstance(m.value, ast.Attribute) and m.value.attr in ("alias_from", "_alias_from") for m in ast.walk(fn.node))
+
+        def src_as_object(fn):
+            # an occurrence of (self.)alias_from that is not the receiver of `.name`
+            recv_of_name = {id(m.value) for m in ast.walk(fn.node) if isinstance(m, ast.Attribute) and m.attr in ("name", "_name")}
+            return any(isinstance(m, ast.Attribute) and m.attr in ("alias_from", "_alias_from") and id(m) not in recv_of_name for m in ast.walk(fn.node))
+        eq_by_name = src_by_name(eqm) and not src_as_object(eqm)
+        if not eq_by_name:
+            rep.exempt("C07.8", cons, "NamedQubit.__eq__ compares the source object itself; any consistent hash will do")
+        elif src_as_object(hm):
+            rep.ok("C07.8", cons, "__eq__ is name based, __hash__ includes the source object", hm.loc())
+        else:
+            rep.violation("C07.8", cons, "NamedQubit.__eq__ compares the source by name and __hash__ no longer includes the source object: `q[0]` over register q and `q[0]` over a macro parameter q become one memo key, and a pass that rebuilds the circuit from objects (fill_in_let, fill_in_map) serves the macro body's statement for the top-level gate (or vice versa)", hm.loc(),
+                          witness="register q[2]\nmacro foo q { Px q[0] }\nPx q[0]   -> after fill_in_let the top-level gate refers to Parameter q")
